@@ -54,10 +54,11 @@ type Cloud struct {
 	mutations          int
 	timedOut           map[string]string // create parameters -> interface created by a call that then reported failure
 	deleteFailed       map[string]bool
+	createFailed       map[string]bool // interfaces created by a create call that reported failure, not adopted since
 }
 
 func newCloud(w *World) *Cloud {
-	return &Cloud{w: w, enis: map[string]*cENI{}, timedOut: map[string]string{}, deleteFailed: map[string]bool{}}
+	return &Cloud{w: w, enis: map[string]*cENI{}, timedOut: map[string]string{}, deleteFailed: map[string]bool{}, createFailed: map[string]bool{}}
 }
 
 func (c *Cloud) newENI(typ, status, instance, trunk string, tags map[string]string, created time.Time, byCtrl bool) *cENI {
@@ -175,6 +176,7 @@ func (c *Cloud) CreateNetworkInterface(ctx context.Context, opts ...aliyunClient
 				return nil, cloudErr(fault)
 			}
 			delete(c.timedOut, pkey)
+			delete(c.createFailed, id)
 			e.CreatedIn = c.w.currentPass()
 			c.w.run.Probe("create-retry-idempotent")
 			c.leave("create", id+" (same token: existing interface)")
@@ -198,6 +200,7 @@ func (c *Cloud) CreateNetworkInterface(ctx context.Context, opts ...aliyunClient
 	c.mutations++
 	if fault == "err-after" {
 		c.timedOut[pkey] = e.ID
+		c.createFailed[e.ID] = true
 		c.w.run.Fault("cloud.create.err-after")
 		c.leave("create", "err after effect "+e.ID)
 		return nil, cloudErr(fault)
@@ -416,14 +419,8 @@ func (c *Cloud) DescribeInstanceTypes(ctx context.Context, t []string) ([]ecs.In
 	return nil, fmt.Errorf("not available in this world")
 }
 
-func (c *Cloud) orphanOfFailedCreate(id string) bool {
-	for _, tid := range c.timedOut {
-		if tid == id {
-			return true
-		}
-	}
-	return false
-}
+// orphanOfFailedCreate: created by a call that reported failure and never handed to a caller since.
+func (c *Cloud) orphanOfFailedCreate(id string) bool { return c.createFailed[id] }
 
 func contains(l []string, s string) bool {
 	for _, x := range l {
